@@ -18,7 +18,7 @@ NA = {
 }
 HOOK_COMMITS = []
 # properties whose check has been reviewed, triaged on the unchanged tree and is claimed (maintained by hand)
-CLAIMED = ["C05", "C08", "C09"]
+CLAIMED = ["C02", "C05", "C08", "C09", "C18"]
 
 checks, na = [], []
 for pid in ALL:
